@@ -452,7 +452,9 @@ supla_esp_update_recv_cb (void *arg, char *pdata, unsigned short len) {
 void ICACHE_FLASH_ATTR
 supla_esp_update_disconnect_cb(void *arg){
 
-	if (  update_step != FUPDT_STEP_DOWNLOADING ) {
+	if (  update_step != FUPDT_STEP_DOWNLOADING
+		  || update->downloaded_data_size != update->expected_file_size ) {
+		// also when the connection is lost before the announced length was received
 		//supla_log(LOG_DEBUG, "UPDATE STEP: %i", update_step);
 		supla_esp_update_reboot(0);
 	}
